@@ -407,7 +407,8 @@ fn self_test(run: &mut Run, tera: &tera::Tera) {
 
 fn main() {
     let mut run = Run::from_env("C14", "exploration");
-    let thorough = run.tier.is_thorough();
+    // the full bounds cost only a few seconds: both tiers run them
+    let thorough = true;
     run.rule(
         "slices: every sequence x every (start, stop, step) triple of the bound alphabets x `[`/`?[` x every available \
          spelling (context values; literals when all three parts are i64-range; sequence literal), one case per rendered \
